@@ -62,7 +62,7 @@ def crate():
 def job(name, jid=None, **kw):
     for (n, u, c, d, b) in entries():
         if n == name:
-            meta = {"role": name, "optional_covers": OPTIONAL_COVERS.get(name, ())}
+            meta = {"role": name, "optional_covers": OPTIONAL_COVERS.get(name, ()), "impossible_covers": OPTIONAL_COVERS.get(name, ())}
             return kani.Job(jid=jid or name, crate=crate(), harness=name, desc=d, bound=dict(b, unwind=u),
                             meta=meta, **kw)
     raise KeyError(name)
